@@ -27,6 +27,8 @@ def gen_cases_for(pid, tier, seed, per_strategy_quick=14, per_strategy_thorough=
             yield c
 
 
+RUN_EXTRAS = {"C17"}
+
 BUILDER_FAMILIES = ["balanced_market", "distributed", "flex_window", "peak_load_window", "peak_shaving", "schedule"]
 
 
@@ -76,8 +78,17 @@ def build_case(case):
 def eval_run(case, oracles, timeout_s=90, step_tie=True):
     full = build_case(case)
     fault = full.get("fault_step")
-    r, tie_lines, tie_impl = steptie.run_with_tie(
-        full, lambda: scen.run_real(full, timeout_s=timeout_s, fault_step=fault), step_tie)
+    extras = full.get("pid") in RUN_EXTRAS          # constructor / back-fill ties of the run (s_ctor, s_backfill)
+    if extras:
+        import s_backfill
+        import s_ctor
+        rec = s_backfill.Recorder().start()
+    try:
+        r, tie_lines, tie_impl = steptie.run_with_tie(
+            full, lambda: scen.run_real(full, timeout_s=timeout_s, fault_step=fault), step_tie)
+    finally:
+        if extras:
+            rec.stop()
     viol, stats = [], [full["strategy"]]
     for o in oracles:
         if o is runoracle.check_c17:
@@ -91,6 +102,13 @@ def eval_run(case, oracles, timeout_s=90, step_tie=True):
         impl.append(runoracle.runloop_impl(full, r))
     lines += tie_lines
     impl += tie_impl
+    if extras and r.get("scenario_obj") is not None and not r.get("escaped") and not r.get("timeout"):
+        for ls, im in (s_ctor.run_time_line(full, r), s_backfill.lines_for(r["scenario_obj"], rec)):
+            lines += ls
+            impl += im
+        bv, bstats = s_backfill.oracle(r["scenario_obj"], rec)
+        viol += bv
+        stats += sorted(set(bstats))
     if r.get("aborted"):
         stats.append("aborted")
         txt = [l for l in r.get("abort_text", "").strip().split("\n") if l.strip() and not l.startswith("Energy")]
